@@ -15,6 +15,7 @@ for v in agg["violations"]:
     first.setdefault(v["signature"], v)
 for sig, k in sorted(c.items(), key=lambda x: -x[1]):
     print("%5d  %s\n         %s" % (k, sig, first[sig]["message"][:300]))
+print("violating_runs", len(agg["violations"]) + agg["stats"].get("violations_not_kept", 0))
 print("runs", agg["runs"], "nontrivial", agg["nontrivial_runs"], "distinct", len(agg["hashes"]), "cells", len(agg["cells"]), "errors", len(agg["errors"]), "wall %.1f" % (time.time()-t0))
 for e in agg["errors"][:2]: print(e[1])
 print({k: v for k, v in agg["stats"].items() if not k.startswith("op:")})
